@@ -303,7 +303,45 @@ pub fn run(tier: Tier) -> i32 {
                 ctx.nontriv(1);
                 check_file(&ctx, &f, &format!("xz file with blocks of {:?} content bytes", sq));
             });
-            ctx.scope_done(name, counts.len() as u64 * 3 + bigs.len() as u64 + seqs.len() as u64, t0, "block counts around 2^7 (2^8, 2^14, > 64 KiB of index records); blocks far larger than their dictionary; every sequence of <= 3 blocks over sizes {0, 5, 65535, 65536, 70000}");
+            // a block whose LZMA2 data holds a compressed chunk of exactly 65536 (65535) bytes - the largest its 16-bit size
+            // field can announce
+            for want in [65536usize, 65535] {
+                if let Some(q) = super::c02::literal_program_with_packed_size(want) {
+                    let w = lzma2::write(&[Chunk::C { class: 3, props: (0, 0, 0), prog: q }, Chunk::U { reset: false, data: vec![1, 2, 3] }]);
+                    for (cs_, us_) in [(false, false), (true, true)] {
+                        let f = XzFile { check_id: 4, blocks: vec![Block { payload: w.bytes.clone(), plain: w.expect.clone(), with_csize: cs_, with_usize: us_, ..Default::default() }, Block { payload: vec![1, 0, 0, 7, 0], plain: vec![7], ..Default::default() }], ..Default::default() };
+                        ctx.eval(1);
+                        ctx.nontriv(1);
+                        check_file(&ctx, &f, &format!("xz block with an LZMA chunk of exactly {} compressed bytes (size fields {})", want, cs_));
+                    }
+                } else {
+                    ctx.machinery_error(&format!("could not construct a chunk with compressed size exactly {}", want));
+                }
+            }
+            // consecutive blocks that agree in one index field and differ in the other (same unpadded size, 5 / 2 / 5 / 2
+            // content bytes; same content size, different unpadded sizes)
+            {
+                let st = |parts: &[&[u8]]| -> (Vec<u8>, Vec<u8>) {
+                    let cs: Vec<Chunk> = parts.iter().enumerate().map(|(k, d)| Chunk::U { reset: k == 0, data: d.to_vec() }).collect();
+                    let w = lzma2::write(&cs);
+                    (w.bytes, w.expect)
+                };
+                let mk = |ps: Vec<(Vec<u8>, Vec<u8>)>| -> Vec<Block> { ps.into_iter().map(|(p, plain)| Block { payload: p, plain, ..Default::default() }).collect() };
+                for check in [0u8, 1, 4] {
+                    for nb in [2usize, 3, 4] {
+                        let all = vec![st(&[&b"abcde"[..]]), st(&[&b"f"[..], &b"g"[..]]), st(&[&b"hijkl"[..]]), st(&[&b"m"[..], &b"n"[..]])];
+                        let f = XzFile { check_id: check, blocks: mk(all[..nb].to_vec()), ..Default::default() };
+                        ctx.eval(1);
+                        ctx.nontriv(1);
+                        check_file(&ctx, &f, &format!("xz file with {} blocks of equal unpadded size and 5/2/5/2 content bytes, check {}", nb, check));
+                    }
+                    let f = XzFile { check_id: check, blocks: mk(vec![st(&[&b"abcd"[..]]), st(&[&b"ef"[..], &b"gh"[..]]), st(&[&b"i"[..], &b"j"[..], &b"k"[..], &b"l"[..]])]), ..Default::default() };
+                    ctx.eval(1);
+                    ctx.nontriv(1);
+                    check_file(&ctx, &f, &format!("xz file with 3 blocks of equal content size and different unpadded sizes, check {}", check));
+                }
+            }
+            ctx.scope_done(name, counts.len() as u64 * 3 + bigs.len() as u64 + seqs.len() as u64 + 12, t0, "block counts around 2^7 (2^8, 2^14, > 64 KiB of index records); blocks far larger than their dictionary; every sequence of <= 3 blocks over sizes {0, 5, 65535, 65536, 70000}");
         }
     }
     // ---------------------------------------------------------------- every legal LZMA2 dictionary-size property byte
